@@ -57,12 +57,26 @@ def near_misses(scale):
         if other != scale:
             out.extend(r[2] for r in rows)
     out.extend(["", "Not Specified", "not specified", None, "11", "-1", "00", "6", "High "])
+    # labels RECOMBINED from the parts of the scale's own labels (a valid grade with another grade's description, halves of two labels, ...)
+    own_labels = [r[2] for r in TABLES[scale]]
+    for sep in (" - ", " / ", "/", " "):
+        parts = [l.split(sep) for l in own_labels if sep in l]
+        for a in parts:
+            for b in parts:
+                if a is not b:
+                    out.append(sep.join(a[:1] + b[1:]))
+                    out.append(sep.join(a[:-1] + b[-1:]))
+    # things that are not strings but print like a label, and containers
+    for lab in own_labels[:2]:
+        out.extend([(lab,), [lab], {lab: 1}, lab.encode()])
+    out.extend([(), [], {}, 0.5, True, b""])
     own = {r[2] for r in TABLES[scale]}
     seen, res = set(), []
     for x in out:
-        if x in own or x in seen:
+        k = repr(x)
+        if (isinstance(x, str) and x in own) or k in seen:
             continue
-        seen.add(x)
+        seen.add(k)
         res.append(x)
     return res
 
